@@ -222,7 +222,7 @@ def load_known():
     if not os.path.exists(path):
         return {}
     data = json.load(open(path))
-    return {f['id']: f for f in data.get('findings', [])}
+    return {(f['id'], f.get('property')): f for f in data.get('findings', [])}
 
 
 def write_replay(prop, obj):
@@ -280,7 +280,7 @@ def verdict(ctx):
     seen_known = set()
     seen_viol = set()
     for finding, what, replay in ctx.failures:
-        entry = known.get(finding) if finding else None
+        entry = known.get((finding, ctx.prop)) if finding else None
         if entry is not None and entry.get('status') == 'known' and entry.get('property') == ctx.prop:
             if finding not in seen_known:
                 seen_known.add(finding)
